@@ -129,6 +129,10 @@ var funcSpecs = []funcSpec{
 	{rel: "", name: "(*X25519Identity).Recipient"},
 	{rel: "agessh", name: "(*EncryptedSSHIdentity).Unwrap", abstract: []string{"agessh.sshFingerprint"},
 		opaque: map[string]string{"ssh.PublicKey": "π", "age.Recipient": "ρ", "age.Identity": "ι"}, stopAt: "err != nil", stopRet: []string{"passphrase", "err"}},
+	{rel: "", name: "NewScryptRecipient"},
+	{rel: "", name: "(*ScryptRecipient).SetWorkFactor"},
+	{rel: "", name: "NewScryptIdentity"},
+	{rel: "", name: "(*ScryptIdentity).SetMaxWorkFactor"},
 	{rel: "", name: "ParseRecipients", abstract: []string{"age.ParseX25519Recipient"}, opaque: map[string]string{"Recipient": "κ", "X25519Recipient": "κ"}, errInts: true},
 }
 
